@@ -21,15 +21,29 @@ EXTENDS Integers, Sequences, FiniteSets, TLC
 CONSTANTS NArgs,      \* arguments are 1..NArgs
           F           \* F[arg] : what the underlying function returns (a sequence of integers)
 
-Auto(base) == IF base = "lam" THEN "" ELSE "auto:" \o base
+(* (the type annotations in comments are for Apalache, which proves the invariants inductive: see                *)
+(* spec/apalache/MC_UserFcnInd.tla)                                                                             *)
+\* @typeAlias: wrapper = { base: Str, wrapped: Bool, cached: Bool, name: Str, explicit: Bool, memo: Int };
+HgUserFcn_typedefs == TRUE
+
+\* @type: Str => Str;
+Auto(base) == CASE base = "lam" -> "" [] base = "def" -> "auto:def" [] OTHER -> "auto:str"
+\* @type: Str => $wrapper;
 Raw(base) == [base |-> base, wrapped |-> FALSE, cached |-> FALSE, name |-> "", explicit |-> FALSE, memo |-> 0]
 
+\* @type: $wrapper => $wrapper;
 Serializable(w) == IF w.wrapped THEN w ELSE [w EXCEPT !.wrapped = TRUE, !.name = Auto(w.base)]
+\* @type: $wrapper => $wrapper;
 Cached(w) == [Serializable(w) EXCEPT !.cached = TRUE]
+\* @type: $wrapper => Bool;
 CanName(w) == ~w.explicit
+\* @type: (Str, $wrapper) => $wrapper;
 Named(n, w) == [Serializable(w) EXCEPT !.name = n, !.explicit = TRUE]
+\* @type: ($wrapper, Int) => Seq(Int);
 CallRet(w, a) == F[a]
+\* @type: ($wrapper, Int) => $wrapper;
 AfterCall(w, a) == IF w.cached THEN [w EXCEPT !.memo = a] ELSE w
+\* @type: ($wrapper, $wrapper) => Bool;
 EqW(w1, w2) == w1.base = w2.base /\ w1.name = w2.name
 
 -----------------------------------------------------------------------------
